@@ -537,7 +537,8 @@ impl Machine {
                             }
                             IndexingLine::Indexing(IndexingInstruction::SwitchOnConstant(hm)) => {
                                 // let lit = self.machine_st.constant_to_literal(cell);
-                                hm.get(&cell).cloned().unwrap_or(IndexingCodePtr::Fail)
+                                let key = self.machine_st.switch_on_constant_key(cell);
+                                hm.get(&key).cloned().unwrap_or(IndexingCodePtr::Fail)
                             }
                             IndexingLine::Indexing(IndexingInstruction::SwitchOnStructure(hm)) => {
                                 self.machine_st.select_switch_on_structure_index(cell, hm)
